@@ -143,7 +143,7 @@ example :
       ⟨0, .generation ⟨0, 0⟩ ⟨0, 0⟩ ⟨0, 0⟩⟩, ⟨0, .getCap⟩,
       ⟨1, .newInstance⟩, ⟨1, .fuzzOne⟩, ⟨1, .parse 25⟩, ⟨1, .getCap⟩]
     let r := run .perGrammar Generated.tunerCfg 20 Generated.defaultSettings (World.fresh 20) h
-    obs 0 r.2 = [.cap 45] ∧ obs 1 r.2 = [.fuzz 20 1, .parse false, .cap 20] := by decide +kernel
+    obs 0 r.2 = [.cap 45] ∧ obs 1 r.2 = [.fuzz 20 1, .parse (accepts Generated.tunerCfg 20 25), .cap 20] := by decide +kernel
 
 /-! ## 3. the module-global design leaks -/
 
@@ -161,9 +161,9 @@ theorem C18_global_cap_leak (cfg : Cfg) (dflt : Nat) (dset : Settings)
     let g := grow cfg.minInc dset.repRate dset.maxReps cfg.safeRep dflt
     (∀ op ∈ leakA, op.inst ≠ 1) ∧ (∀ op ∈ leakB (dflt + 1), op.inst = 1) ∧ dflt < g ∧
     obs 1 (run .moduleGlobal cfg dflt dset (World.fresh dflt) (leakA ++ leakB (dflt + 1))).2
-      = [.cap g, .fuzz g 1, .parse true] ∧
+      = [.cap g, .fuzz g 1, .parse (accepts cfg g (dflt + 1))] ∧
     obs 1 (run .moduleGlobal cfg dflt dset (World.fresh dflt) (leakB (dflt + 1))).2
-      = [.cap dflt, .fuzz dflt 1, .parse false] := by
+      = [.cap dflt, .fuzz dflt 1, .parse (accepts cfg dflt (dflt + 1))] := by
   intro g
   have hg : dflt < g := grow_strict cfg.minInc dset.repRate dset.maxReps cfg.safeRep dflt h1 h3
   have hst : stagnating cfg Dy.zero Dy.zero Dy.zero = true := by
@@ -211,9 +211,9 @@ theorem C18_source_design_verdict :
     B after A `[cap 30, fuzz 30 1, accept]` -/
 example :
     obs 1 (run .moduleGlobal Generated.tunerCfg 20 Generated.defaultSettings (World.fresh 20)
-      (leakA ++ leakB 21)).2 = [.cap 30, .fuzz 30 1, .parse true] ∧
+      (leakA ++ leakB 21)).2 = [.cap 30, .fuzz 30 1, .parse (accepts Generated.tunerCfg 30 21)] ∧
     obs 1 (run .moduleGlobal Generated.tunerCfg 20 Generated.defaultSettings (World.fresh 20)
-      (leakB 21)).2 = [.cap 20, .fuzz 20 1, .parse false] := by decide +kernel
+      (leakB 21)).2 = [.cap 20, .fuzz 20 1, .parse (accepts Generated.tunerCfg 20 21)] := by decide +kernel
 
 /-! ## 4. the shared iteration counter is harmless -/
 
